@@ -350,7 +350,27 @@ theorem sgr_exact_decided (s : Style) (cs : List Nat) (h : specCodes s = some cs
             .ok (if (unescape text).isEmpty then [] else wrap cs (unescape text), st)) :=
   sgr_exact s cs (by rw [← spec_codes_decides]; exact h) text
 
+/-- A style passed for a single call is rendered with ITS OWN codes whatever its tag denotes in the
+formatter the call goes to: no style, the style of the default set, a built-in one, or a style `r`
+registered under the same tag with other colours and attributes (also the same object adjusted after
+its registration: the registry holds the converted snapshot). -/
+theorem sgr_call_ignores_registered_tag (s r : Style) (cs : List Nat) (h : specCodes s = some cs)
+    (reg reg' : Registry) (_hr : r.tag = s.tag) (_hreg : register reg r = .ok reg')
+    (st : Stack) (text : Str) (hno : hasTag (lex text) = false) :
+    ansiFormat (registryResolver reg') st text (some s) =
+      .ok (if (unescape text).isEmpty then [] else wrap cs (unescape text), st) ∧
+    ansiFormat (registryResolver reg') st text (some s) = ansiFormat (registryResolver reg) st text (some s) := by
+  obtain ⟨_, _, _, _, _, _, hcall⟩ := sgr_exact_decided s cs h text
+  exact ⟨hcall _ st hno, by rw [hcall _ st hno, hcall _ st hno]⟩
+
 /-! ## Non-vacuity -/
+
+/-- `sgr_call_ignores_registered_tag`: `zz` is registered as red, the call passes a bold `zz` -/
+example : ∃ reg', register [] { tag := some ['z', 'z'], fg := some ['r', 'e', 'd'] } = .ok reg' ∧
+    ansiFormat (registryResolver reg') [] ['T'] (some { tag := some ['z', 'z'], bold := true }) =
+      .ok (wrap [1] ['T'], []) :=
+  ⟨_, rfl, (sgr_call_ignores_registered_tag { tag := some ['z', 'z'], bold := true }
+    { tag := some ['z', 'z'], fg := some ['r', 'e', 'd'] } [1] (by decide) [] _ rfl rfl [] ['T'] (by decide)).1⟩
 
 /-- red + bold + underlined: codes 31, 1, 4 in this order, `ESC[31;1;4mT ESC[0m` -/
 example : (convert { fg := some ['r', 'e', 'd'], bold := true, underlined := true }).toOption.map
